@@ -65,7 +65,8 @@ def chunk_encode(rnd, body, maxchunks=50, bigchunk=False, cuts=None):
                 ext += '=' + ''.join(rnd.choice('abc123') for _ in range(rnd.randint(1, 20)))
         out += (hx + ext).encode() + b'\r\n'
         if cuts is not None and len(cuts) < 40:
-            cuts.append(len(out))
+            # right behind the size line, and one / two bytes into the data
+            cuts += [len(out), len(out) + 1, len(out) + 2]
         out += body[pos:pos + c]
         if cuts is not None and len(cuts) < 40:
             cuts += [len(out), len(out) + 1, len(out) + 2]
@@ -94,6 +95,9 @@ def gen_request(rnd, head=False):
     body = b''
     if method in ('POST', 'PUT') and rnd.random() < 0.8:
         body = rbytes(rnd, rnd.choice([1, 10, 100, 5000, rnd.randint(1, 20000)]))
+    elif rnd.random() < 0.25:
+        # the caller may give any method a body (HEAD, GET, DELETE, ...)
+        body = rbytes(rnd, rnd.choice([1, 12, 100, rnd.randint(1, 3000)]))
     return method, path, hdrs, body
 
 
@@ -209,7 +213,7 @@ WS = b' \t\r\n\x0b\x0c'
 def mutate(rnd, c):
     """Return (bytes, tag) - a hostile variant of the well-formed response."""
     r = bytearray(c['resp'])
-    m = rnd.randrange(16)
+    m = rnd.randrange(19)
     if m == 0 and len(r):        # truncate
         return bytes(r[:rnd.randrange(len(r))]), 'truncate'
     if m == 1 and len(r):        # flip bytes
@@ -254,7 +258,8 @@ def mutate(rnd, c):
             padlen = 0
         hdr = pre + padname + b'p' * padlen + b'\r\n\r\n'
         ws = bytes(rnd.choice(WS) for _ in range(max(0, filler - len(hdr) - 2)))
-        line = rnd.choice([b'', b'', b'+', b'-', b'0x'])
+        # (also a valid size followed by nothing but whitespace up to the buffer end)
+        line = rnd.choice([b'', b'', b'+', b'-', b'0x', b'3', b'10', b'a', b'fff', b'1000'])
         rest = rnd.choice([b'', b'5\r\nhello\r\n0\r\n\r\n', b'\r\n', rbytes(rnd, 30)])
         return hdr + line + b'\r\n' + ws[len(line):] + rest, 'chunk-ws-to-buffer-end'
     if m == 8:                   # header blocks around 64 KiB
@@ -283,6 +288,38 @@ def mutate(rnd, c):
     if m == 14:                  # both framings / duplicates
         return head + b'Content-Length: 5\r\nTransfer-Encoding: chunked\r\nContent-Length: 7\r\n\r\n' + \
             b'3\r\nabc\r\n0\r\n\r\n', 'both-framings'
+    if m == 15:                  # a bare CR directly before a line's CRLF (CR CR LF)
+        hend = min(len(r), c['interim_len'] + c['final_len'])
+        eols = [i for i in range(0, max(0, hend - 1)) if r[i:i + 2] == b'\r\n']
+        if not eols:
+            return bytes(r), 'asis'
+        picks = set()
+        # favour the status lines and the last header line before each blank line
+        fav = [eols[0]] + [e for e in eols if r[e + 2:e + 4] == b'\r\n'] + \
+              [e for e in eols if e >= c['interim_len']][:1]
+        for _ in range(rnd.randint(1, 3)):
+            picks.add(rnd.choice(fav) if rnd.random() < 0.7 else rnd.choice(eols))
+        for i in sorted(picks, reverse=True):
+            r[i:i] = b'\r' * rnd.choice([1, 1, 1, 2])
+        return bytes(r), 'cr-before-eol'
+    if m == 16:                  # a valid chunk first, then a hostile chunk-size line
+        n = rnd.choice([1, 2, 3, 4, 8, 16, 17, 40, rnd.randint(1, 300)])
+        first = rbytes(rnd, n)
+        v = rnd.choice([b'%x' % (SIZE_MAX - n + 1), b'%x' % (SIZE_MAX - n + 2), b'%x' % (SIZE_MAX - 2),
+                        b'%x' % (SIZE_MAX - 3), b'%x' % (SIZE_MAX - n), b'%x' % (SIZE_MAX - n - 1),
+                        b'%X' % (SIZE_MAX - rnd.randint(0, max(3, n + 3))),
+                        b'ffffffffffffffff', b'fffffffffffffffe', b'7fffffffffffffff', b'8000000000000000',
+                        b'10000000000000000', b'-1', b'-%x' % n, b'', b' ', b'+3', b'0x3', b'g', b'3 '])
+        data = rbytes(rnd, rnd.choice([0, 1, 20, 6000, 6000, 20000]))
+        tail = rnd.choice([b'', b'\r\n', b'\r\n0\r\n\r\n'])
+        c['body'] = first        # the caller draws the body limit around this length
+        return head + b'Transfer-Encoding: chunked\r\n\r\n' + (b'%x' % n) + b'\r\n' + first + b'\r\n' + \
+            v + b'\r\n' + data + tail, 'chunk-hostile-later'
+    if m == 17:                  # hostile framing values in an otherwise valid header block
+        v = rnd.choice([b'010', b'0100', b'08', b'09', b'0x10', b'00000000000000000000000000000012',
+                        b'12 ', b'\t12', b'12\t', b'1 2', b'12,12', b'12;q=1'])
+        body = rbytes(rnd, rnd.choice([0, 7, 8, 12, 16, 18, 64, 100]))
+        return head + b'Content-Length: ' + v + b'\r\n\r\n' + body, 'clen-odd'
     return bytes(r), 'asis'
 
 
